@@ -226,6 +226,13 @@ func (t *Tags) RemoveAllTags() {
 func (t Tags) Clone() Tags {
 	clone := make([]Tag, len(t))
 	copy(clone, t)
+	for i := range clone {
+		// A list of expressions (the points of a path) is the only tag value
+		// that can be edited in place.
+		if es, ok := clone[i].Value.AnyExpression.(Expressions); ok {
+			clone[i].Value.AnyExpression = append(Expressions{}, es...)
+		}
+	}
 	return clone
 }
 
